@@ -227,6 +227,11 @@ def go_run(test, cases_path, obs_path, timeout=600, race=False, env_extra=None, 
            "-timeout", "%ds" % timeout, "-run", "^%s$" % test]
     if race:
         cmd.append("-race")
+    if os.environ.get("VERIF_COVER"):
+        # development aid: which library code do the generated cases reach?  (tools/coverage.sh)
+        cd = os.environ["VERIF_COVER"]
+        os.makedirs(cd, exist_ok=True)
+        cmd += ["-coverprofile", os.path.join(cd, "cover.%d.%d.out" % (os.getpid(), len(os.listdir(cd)))), "-coverpkg", "./rpc/"]
     cmd.append("./rpc/")
     rc, out, dt = run(cmd, cwd=REPO, env=env, timeout=timeout + 60)
     return rc, out, dt
